@@ -41,6 +41,9 @@ type ReturnSite struct {
 	WrittenRoots map[Root]bool // roots that may have been written on some path to this site
 	RecvDefined  bool          // the whole of *Param(0) has definitely been written on every path to this site
 	Forwarded    *ssa.Function // the site forwards this callee's result tuple
+	// Pred/To: the site is one incoming path of a return block that merges several (named results, a single
+	// `return` at the end): the path enters block To from block Pred; nil for an ordinary site
+	Pred, To *ssa.BasicBlock
 }
 
 type Summary struct {
@@ -463,7 +466,7 @@ func (fi *FuncInfo) transfer(in ssa.Instruction, set func(ssa.Value, []PVal), ch
 						*changed = true
 					}
 				}
-			case r.Kind == KGlobal && f.Name() == "init" && f.Synthetic != "":
+			case r.Kind == KGlobal && load.IsInitFunc(f):
 				// package initialiser publishing a pointer: the pointee is named GPointee(g) elsewhere
 			default:
 				a.problem(f, in, "store of a pointer into %s", fi.LocName(pv.Loc))
@@ -1208,8 +1211,20 @@ func (fi *FuncInfo) dataflow() {
 			if st.may.Add(ev.Loc) {
 				lastWriteEv[ev.Loc] = ev
 			}
+			if ev.Loc.Root.IsFresh() && !(ev.Via != nil && load.ShortName(ev.Via) == "field.(*Element).One") {
+				st.may.Add(nonOneMark(ev.Loc)) // written by something other than Element.One (see identityByZero)
+			}
 		case OpMustWrite:
 			st.must.Add(ev.Loc)
+			if ev.Loc.Root.IsFresh() {
+				if t := fi.RootType(ev.Loc.Root); t != nil && NonZeroValid(t) {
+					// the moment the object becomes "zero value + One() on the coordinates that are 1 in the neutral
+					// element", its never-written coordinates are the zeros of the neutral element: defined
+					for _, zl := range fi.identityZeros(st, ev.Loc.Root, t) {
+						st.must.Add(zl)
+					}
+				}
+			}
 		}
 	}
 
@@ -1312,6 +1327,13 @@ func (fi *FuncInfo) dataflow() {
 					if po.must == nil {
 						continue
 					}
+					if gain := fi.successEdgeGain(f.Blocks[pn%n], b); len(gain) > 0 {
+						// the edge on which a fallible setter's error is nil: the setter has written all of its receiver
+						po = state{must: po.must.Clone(), may: po.may}
+						for _, l := range gain {
+							po.must.Add(l)
+						}
+					}
 					if first {
 						st.must = po.must.Clone()
 						first = false
@@ -1379,6 +1401,33 @@ func (fi *FuncInfo) dataflow() {
 		if st.must == nil {
 			continue // unreachable
 		}
+		// a return block that only merges values (phis of the named results): one site per incoming path
+		if vs := fi.virtualSites(ret); len(vs) > 1 {
+			for _, v := range vs {
+				pst := out[v.pred.Index]
+				if pst.must == nil {
+					continue
+				}
+				must := pst.must.Clone()
+				for _, l := range fi.successEdgeGain(v.pred, v.to) {
+					must.Add(l)
+				}
+				fi.addReturnSite(sum, ret, state{must: must, may: pst.may}, v)
+			}
+			// the function's MustWrite is still the meet at the merged block
+			m := LocSet{}
+			for l := range st.must {
+				if !l.Root.IsFresh() {
+					m.Add(l)
+				}
+			}
+			if sum.MustWrite == nil {
+				sum.MustWrite = m
+			} else {
+				sum.MustWrite = fi.meetMust(sum.MustWrite, m)
+			}
+			continue
+		}
 		// MustWrite of the function: meet over return sites, non-fresh roots only
 		m := LocSet{}
 		for l := range st.must {
@@ -1391,66 +1440,7 @@ func (fi *FuncInfo) dataflow() {
 		} else {
 			sum.MustWrite = fi.meetMust(sum.MustWrite, m)
 		}
-		rs := ReturnSite{Instr: ret, Err: -1, WrittenRoots: map[Root]bool{}}
-		for l := range st.may {
-			rs.WrittenRoots[l.Root] = true
-		}
-		if len(f.Params) > 0 && isPtrLike(f.Params[0].Type()) {
-			rs.RecvDefined = fi.covered(st.must, Loc{Root: Root{Kind: KParam, Index: 0}})
-		}
-		res := f.Signature.Results()
-		rs.Results = make([][]PVal, len(ret.Results))
-		for k, rv := range ret.Results {
-			if isPtrLike(rv.Type()) {
-				rs.Results[k] = fi.operand(rv)
-				for _, pv := range rs.Results[k] {
-					if pv.Loc.Root.IsFresh() && len(fi.Contents[pv.Loc.Root]) > 0 {
-						if sum.RetContents == nil {
-							sum.RetContents = map[int][]PVal{}
-						}
-						for _, cpv := range fi.Contents[pv.Loc.Root] {
-							sum.RetContents[k], _ = addPV(sum.RetContents[k], cpv)
-						}
-					}
-				}
-				// a returned local object of a non-zero-valid type must be fully defined
-				for _, pv := range rs.Results[k] {
-					if pv.Loc.Root.IsFresh() {
-						if t := fi.RootType(pv.Loc.Root); t != nil && NonZeroValid(t) && !fi.covered(st.must, pv.Loc) {
-							fi.LocalInit = append(fi.LocalInit, InitViolation{Fn: f, Root: pv.Loc.Root, Loc: pv.Loc, Instr: ret})
-						}
-					}
-				}
-			}
-		}
-		if n := res.Len(); n > 0 && isErrorType(res.At(n-1).Type()) {
-			ev := ret.Results[n-1]
-			rs.Err = 2
-			if k := fi.A.P.ErrNil(ev); k != 2 {
-				// the nil constant; errors.New / fmt.Errorf; a sentinel error variable (written once, by the
-				// initialiser, with a non-nil error); a non-nil concrete value boxed into the interface
-				rs.Err = k
-			}
-			switch e := ev.(type) {
-			case *ssa.Extract:
-				if call, ok := e.Tuple.(*ssa.Call); ok {
-					if cal := call.Common().StaticCallee(); cal != nil && fi.A.Info[cal] != nil {
-						// forwarded tuple: must forward all components in order
-						fwd := true
-						for k, rv := range ret.Results {
-							ex, ok := rv.(*ssa.Extract)
-							if !ok || ex.Tuple != e.Tuple || ex.Index != k {
-								fwd = false
-							}
-						}
-						if fwd {
-							rs.Forwarded = cal
-						}
-					}
-				}
-			}
-		}
-		sum.Returns = append(sum.Returns, rs)
+		fi.addReturnSite(sum, ret, st, nil)
 	}
 	if sum.MustWrite == nil {
 		sum.MustWrite = LocSet{}
@@ -1668,3 +1658,276 @@ func (fi *FuncInfo) Translate(c ssa.CallInstruction, l Loc) []Loc { return fi.tr
 
 // PtsOf exposes the points-to set of a pointer/slice value.
 func (fi *FuncInfo) PtsOf(v ssa.Value) []PVal { return fi.operand(v) }
+
+// successEdgeGain: pb ends in `if err != nil` (or ==) on the error result of a
+// call to a function whose every success site has written its whole receiver
+// (the fallible setters); on the edge to b where the error is nil the
+// receiver object of that call is therefore fully defined.
+func (fi *FuncInfo) successEdgeGain(pb, b *ssa.BasicBlock) []Loc {
+	if len(pb.Instrs) == 0 || len(pb.Succs) != 2 {
+		return nil
+	}
+	ifi, ok := pb.Instrs[len(pb.Instrs)-1].(*ssa.If)
+	if !ok {
+		return nil
+	}
+	bo, ok := ifi.Cond.(*ssa.BinOp)
+	if !ok || (bo.Op != token.EQL && bo.Op != token.NEQ) {
+		return nil
+	}
+	x, y := bo.X, bo.Y
+	if c, isC := x.(*ssa.Const); isC && c.Value == nil {
+		x, y = y, x
+	}
+	if c, isC := y.(*ssa.Const); !isC || c.Value != nil {
+		return nil
+	}
+	ex, ok := x.(*ssa.Extract)
+	if !ok || !isErrorType(ex.Type()) {
+		return nil
+	}
+	call, ok := ex.Tuple.(*ssa.Call)
+	if !ok {
+		return nil
+	}
+	h := call.Common().StaticCallee()
+	hi := fi.A.Info[h]
+	if h == nil || hi == nil || hi.Sum == nil || len(call.Common().Args) == 0 {
+		return nil
+	}
+	nilEdge := 0
+	if bo.Op == token.NEQ {
+		nilEdge = 1
+	}
+	if pb.Succs[nilEdge] != b || pb.Succs[1-nilEdge] == b {
+		return nil
+	}
+	n := 0
+	for _, rs := range hi.Sum.Returns {
+		switch {
+		case rs.Forwarded != nil, rs.Err == 2, rs.Err == -1:
+			return nil
+		case rs.Err == 0:
+			if !rs.RecvDefined {
+				return nil
+			}
+			n++
+		}
+	}
+	if n == 0 {
+		return nil
+	}
+	pvs := fi.operand(call.Common().Args[0])
+	if len(pvs) != 1 {
+		return nil
+	}
+	return []Loc{pvs[0].Loc}
+}
+
+// vsite is one incoming path of a merging return block.
+type vsite struct {
+	pred, to *ssa.BasicBlock
+	subst    map[ssa.Value]ssa.Value
+}
+
+func (v *vsite) resolve(x ssa.Value) ssa.Value {
+	if v == nil {
+		return x
+	}
+	for i := 0; i < 8; i++ {
+		y, ok := v.subst[x]
+		if !ok {
+			break
+		}
+		x = y
+	}
+	return x
+}
+
+// virtualSites expands a return whose block (and, transitively, the blocks that
+// jump to it) holds nothing but phis into the paths that reach it.
+func (fi *FuncInfo) virtualSites(ret *ssa.Return) []*vsite {
+	merging := func(b *ssa.BasicBlock) bool {
+		if len(b.Preds) < 2 {
+			return false
+		}
+		for _, in := range b.Instrs[:len(b.Instrs)-1] {
+			switch in.(type) {
+			case *ssa.Phi, *ssa.DebugRef:
+			default:
+				return false
+			}
+		}
+		return true
+	}
+	if !merging(ret.Block()) {
+		return nil
+	}
+	var out []*vsite
+	var walk func(b *ssa.BasicBlock, subst map[ssa.Value]ssa.Value, depth int) bool
+	walk = func(b *ssa.BasicBlock, subst map[ssa.Value]ssa.Value, depth int) bool {
+		for i, pb := range b.Preds {
+			s2 := map[ssa.Value]ssa.Value{}
+			for k, v := range subst {
+				s2[k] = v
+			}
+			for _, in := range b.Instrs {
+				if ph, ok := in.(*ssa.Phi); ok {
+					s2[ph] = ph.Edges[i]
+				}
+			}
+			_, isJump := pb.Instrs[len(pb.Instrs)-1].(*ssa.Jump)
+			if isJump && merging(pb) && depth < 4 {
+				if !walk(pb, s2, depth+1) {
+					return false
+				}
+				continue
+			}
+			out = append(out, &vsite{pred: pb, to: b, subst: s2})
+			if len(out) > 32 {
+				return false
+			}
+		}
+		return true
+	}
+	if !walk(ret.Block(), map[ssa.Value]ssa.Value{}, 0) {
+		return nil
+	}
+	return out
+}
+
+func (fi *FuncInfo) addReturnSite(sum *Summary, ret *ssa.Return, st state, v *vsite) {
+	f := fi.Fn
+	rs := ReturnSite{Instr: ret, Err: -1, WrittenRoots: map[Root]bool{}}
+	if v != nil {
+		rs.Pred, rs.To = v.pred, v.to
+	}
+	for l := range st.may {
+		rs.WrittenRoots[l.Root] = true
+	}
+	if len(f.Params) > 0 && isPtrLike(f.Params[0].Type()) {
+		rs.RecvDefined = fi.covered(st.must, Loc{Root: Root{Kind: KParam, Index: 0}})
+	}
+	res := f.Signature.Results()
+	rs.Results = make([][]PVal, len(ret.Results))
+	for k, rv0 := range ret.Results {
+		rv := v.resolve(rv0)
+		if isPtrLike(rv.Type()) {
+			rs.Results[k] = fi.operand(rv)
+			for _, pv := range rs.Results[k] {
+				if pv.Loc.Root.IsFresh() && len(fi.Contents[pv.Loc.Root]) > 0 {
+					if sum.RetContents == nil {
+						sum.RetContents = map[int][]PVal{}
+					}
+					for _, cpv := range fi.Contents[pv.Loc.Root] {
+						sum.RetContents[k], _ = addPV(sum.RetContents[k], cpv)
+					}
+				}
+			}
+			// a returned local object of a non-zero-valid type must be fully defined
+			for _, pv := range rs.Results[k] {
+				if pv.Loc.Root.IsFresh() {
+					if t := fi.RootType(pv.Loc.Root); t != nil && NonZeroValid(t) && !fi.covered(st.must, pv.Loc) {
+						fi.LocalInit = append(fi.LocalInit, InitViolation{Fn: f, Root: pv.Loc.Root, Loc: pv.Loc, Instr: ret})
+					}
+				}
+			}
+		}
+	}
+	if n := res.Len(); n > 0 && isErrorType(res.At(n-1).Type()) {
+		ev := v.resolve(ret.Results[n-1])
+		rs.Err = 2
+		if k := fi.A.P.ErrNil(ev); k != 2 {
+			// the nil constant; errors.New / fmt.Errorf; a sentinel error variable (written once, by the
+			// initialiser, with a non-nil error); a non-nil concrete value boxed into the interface
+			rs.Err = k
+		}
+		switch e := ev.(type) {
+		case *ssa.Extract:
+			if call, ok := e.Tuple.(*ssa.Call); ok {
+				if cal := call.Common().StaticCallee(); cal != nil && fi.A.Info[cal] != nil {
+					// forwarded tuple: must forward all components in order
+					fwd := true
+					for k, rv0 := range ret.Results {
+						rv := v.resolve(rv0)
+						ex, ok := rv.(*ssa.Extract)
+						if !ok || ex.Tuple != e.Tuple || ex.Index != k {
+							fwd = false
+						}
+					}
+					if fwd {
+						rs.Forwarded = cal
+					}
+				}
+			}
+		}
+	}
+	sum.Returns = append(sum.Returns, rs)
+}
+
+// ---- the neutral element written as "zero value + One()" ------------------------------------
+
+const nonOneField = 9999
+
+func nonOneMark(l Loc) Loc {
+	return Loc{Root: l.Root, Path: EncodePath([]Step{{Field: true, N: nonOneField}}) + l.Path}
+}
+
+// identityPattern: per coordinate system, the coordinates that are 1 and those that are 0 in the neutral element.
+var identityPattern = map[string][2][]string{
+	"projP2":       {{"Y", "Z"}, {"X"}},
+	"projCached":   {{"YplusX", "YminusX", "Z"}, {"T2d"}},
+	"affineCached": {{"YplusX", "YminusX"}, {"T2d"}},
+	"Point":        {{"y", "z"}, {"x", "t"}},
+}
+
+// identityZeros: when a fresh point-like object is exactly "the zero value
+// with One() stored into the coordinates that are 1 in the neutral element" —
+// (a) none of the coordinates that are 0 there has been written on any path so
+// far, and (b) the coordinates that are 1 there have all been written on every
+// path, by field.(*Element).One and by nothing else — the object IS the neutral
+// element of its coordinate system, and its never-written coordinates are
+// defined (they are its zeros). Returns those locations.
+func (fi *FuncInfo) identityZeros(st *state, root Root, t types.Type) []Loc {
+	n, ok := t.(*types.Named)
+	if !ok {
+		return nil
+	}
+	pat, ok := identityPattern[n.Obj().Name()]
+	if !ok {
+		return nil
+	}
+	fieldPath := func(name string) (Path, bool) {
+		i := load.FieldIndex(t, name)
+		if i < 0 {
+			return "", false
+		}
+		return EncodePath([]Step{{Field: true, N: i}}), true
+	}
+	var zeros []Loc
+	for _, zf := range pat[1] {
+		fp, ok := fieldPath(zf)
+		if !ok {
+			return nil
+		}
+		for w := range st.may {
+			if w.Root == root && Overlap(w.Path, fp) {
+				return nil // a zero coordinate has been written
+			}
+		}
+		zeros = append(zeros, Loc{Root: root, Path: fp})
+	}
+	mark := EncodePath([]Step{{Field: true, N: nonOneField}})
+	for _, of := range pat[0] {
+		fp, ok := fieldPath(of)
+		if !ok || !fi.covered(st.must, Loc{Root: root, Path: fp}) {
+			return nil
+		}
+		for w := range st.may {
+			if w.Root == root && strings.HasPrefix(string(w.Path), string(mark)) && Overlap(Path(strings.TrimPrefix(string(w.Path), string(mark))), fp) {
+				return nil // written by something other than One()
+			}
+		}
+	}
+	return zeros
+}
